@@ -129,6 +129,21 @@ class Ctx:
             Obligation(f"{self.unit.uid}/{name}", kind, hyps, goal, dict(inputs if inputs is not None else self.inputs), replay, excluded, source, list(hints or []))
         )
 
+    def oblige_steps(self, name, st_or_hyps, steps, **kw):
+        """cut rule: prove steps[0], then steps[1] with steps[0] as an extra hypothesis, ...; the last step is the goal.
+        Every step is an obligation of its own (a lemma is never assumed without having been discharged)."""
+        hyps = list(st_or_hyps.pc) if isinstance(st_or_hyps, State) else list(st_or_hyps)
+        for k, stp in enumerate(steps):
+            last = k == len(steps) - 1
+            self.oblige(name if last else f"{name}.lemma{k}", hyps + list(steps[:k]), stp, **(kw if last else dict(kw, kind="lemma")))
+
+    def local_var(self, st, name):
+        """value of a local variable of the (already returned) function under analysis in state st"""
+        for env in reversed(list(st.envs.values())):
+            if name in env:
+                return env[name]
+        raise KeyError(name)
+
     def cover(self, name, st_or_hyps, extra=None):
         hyps = list(st_or_hyps.pc) if isinstance(st_or_hyps, State) else list(st_or_hyps)
         if extra is not None:
